@@ -139,12 +139,12 @@ func dataBytes(g *hc.Gen, format string) ([]byte, string) {
 			n := 1000 + g.Intn(40000)
 			return []byte(strings.Repeat("[", n) + strings.Repeat("]", n-g.Intn(2))), "bytes:deep_nesting"
 		case 1:
-			n := 1000 + g.Intn(20000)
+			n := 200 + g.Intn(1300) // as CSV with delimiter `"` or `:` this is a record of thousands of fields
 			return []byte(strings.Repeat(`{"a":`, n) + "1" + strings.Repeat("}", n)), "bytes:deep_nesting"
 		case 2:
 			return []byte("a,b\n" + strings.Repeat("x", 100000+g.Intn(200000)) + ",1\n"), "bytes:long_line"
 		case 3:
-			return []byte(strings.Repeat("c,", 3000) + "c\n" + strings.Repeat("1,", 3000) + "1\n"), "bytes:many_columns"
+			return []byte(strings.Repeat("c,", 1500) + "c\n" + strings.Repeat("1,", 1500) + "1\n"), "bytes:many_columns"
 		default:
 			return []byte("a,b\n" + strings.Repeat("1,2\n", 5000) + "3\n"), "bytes:many_rows"
 		}
